@@ -72,7 +72,7 @@ ADVANCE_SHIM = (
     "    // Cursor::advance: PROVED in unit `lexer` for the extracted body, with exactly these clauses (shared constants)\n"
     "    #[verifier::external_body]\n"
     "    pub fn advance(&mut self) -> (r: Result<Token<'a>, Error>)\n"
-    + clause_text(LX.ADV_REQ + LX.ADV_POST + [LX.KIND_POST]).replace("    ensures\n", "    ensures\n        r is Err ==> !r->Err_0.is_limit,   // frame check only_lexer_next_makes_limit_errors\n")
+    + clause_text(LX.ADV_REQ + LX.ADV_POST + [LX.KIND_POST]).replace("    ensures\n", "    ensures\n        %s,   // proved in unit lexer_strings (same clause text); the frame check only_lexer_next_makes_limit_errors stays as a second line of defence\n" % LX.NO_LIMIT_POST[2])
     + "    { unimplemented!() }\n"
     "    // Cursor::new (lexer/cursor.rs): a fresh cursor over the input.  A Rust string is at most isize::MAX bytes long.\n"
     "    #[verifier::external_body]\n"
